@@ -128,6 +128,9 @@ func (e *Engine) addSpecFile(path, pkgName string) error {
 		if strings.HasPrefix(key, "iface:") && pkgName != "" {
 			key = "iface:" + pkgName + "." + key[6:]
 		}
+		if strings.HasPrefix(key, pkgName+".functype:") {
+			key = "functype:" + pkgName + "." + strings.TrimPrefix(key, pkgName+".functype:")
+		}
 		if _, dup := e.contracts[key]; dup {
 			return fmt.Errorf("%s:%d: duplicate contract for %s", path, fc.Line, key)
 		}
@@ -158,6 +161,17 @@ func (e *Engine) addSpecFile(path, pkgName string) error {
 func funcKey(fn *ssa.Function) string {
 	if fn == nil {
 		return ""
+	}
+	if o := fn.Origin(); o != nil {
+		fn = o // an instantiation of a generic function is named after the generic function
+	}
+	if fn.Parent() != nil {
+		// anonymous function: parent key + ordinal
+		for i, a := range fn.Parent().AnonFuncs {
+			if a == fn {
+				return fmt.Sprintf("%s$%d", funcKey(fn.Parent()), i+1)
+			}
+		}
 	}
 	pkgName := ""
 	if fn.Pkg != nil {
@@ -489,4 +503,66 @@ func (e *Engine) ifaceTargets(key string) []*ssa.Function {
 	}
 	sort.Slice(out, func(i, j int) bool { return funcKey(out[i]) < funcKey(out[j]) })
 	return out
+}
+
+// anonFuncsMatching: all anonymous functions of package pkgName whose signature is identical to sig.
+func (e *Engine) anonFuncsMatching(pkgName string, sig *types.Signature) []*ssa.Function {
+	sp := e.spkgs[pkgName]
+	if sp == nil {
+		return nil
+	}
+	var out []*ssa.Function
+	var walk func(fn *ssa.Function)
+	walk = func(fn *ssa.Function) {
+		for _, a := range fn.AnonFuncs {
+			if types.Identical(a.Signature, sig) {
+				out = append(out, a)
+			}
+			walk(a)
+		}
+	}
+	seen := map[*ssa.Function]bool{}
+	for _, m := range sp.Members {
+		switch x := m.(type) {
+		case *ssa.Function:
+			if !seen[x] {
+				seen[x] = true
+				walk(x)
+			}
+		case *ssa.Type:
+			for _, t := range []types.Type{x.Type(), types.NewPointer(x.Type())} {
+				ms := e.prog.MethodSets.MethodSet(t)
+				for i := 0; i < ms.Len(); i++ {
+					if fn := e.prog.MethodValue(ms.At(i)); fn != nil && fn.Synthetic == "" && !seen[fn] {
+						seen[fn] = true
+						walk(fn)
+					}
+				}
+			}
+		}
+	}
+	sort.Slice(out, func(i, j int) bool { return funcKey(out[i]) < funcKey(out[j]) })
+	return out
+}
+
+// functypeTargets: key functype:pkg.Name
+func (e *Engine) functypeTargets(key string) []*ssa.Function {
+	rest := strings.TrimPrefix(key, "functype:")
+	parts := strings.Split(rest, ".")
+	if len(parts) != 2 {
+		return nil
+	}
+	p := e.pkgs[parts[0]]
+	if p == nil {
+		return nil
+	}
+	obj := p.Types.Scope().Lookup(parts[1])
+	if obj == nil {
+		return nil
+	}
+	sig, ok := obj.Type().Underlying().(*types.Signature)
+	if !ok {
+		return nil
+	}
+	return e.anonFuncsMatching(parts[0], sig)
 }
